@@ -33,6 +33,14 @@ CHECKS = {
    text="(A, TSan build) 2-16 simulated caller threads execute generated operations on shared objects through the documented thread-safe surface (shared SpaceInformation isValid/checkMotion, shared GNAT queries with a non-empty removal cache, RNG and StateSpace construction, ProblemDefinition add/get solutions, logging, terminate vs eval) in a seeded serial order; the scheduler's futex hand-off is compiled outside TSan, so TSan reports exactly the conflicting accesses the library itself does not order, deterministically; functional results (motion counters == calls, queries == brute force, no lost solution, distinct RNG seeds / space names) are compared with the sequential answers. (B, ASan build) the threaded planners pRRT, pSBL, CForest, PRM, PRM*, SPARS, SPARStwo, AnytimePathShortening run as real threads under the seeded scheduler and simulated clock (interleaving chosen at every mutex operation, validity call, sleep, thread start/exit; optional starvation, external terminate() from another simulated thread, lazily produced goals), judged by the C01 path/status oracle, deadlock detection, ASan/UBSan.",
    note="Trusted: the scheduler and interposers; TSan's finite shadow history (op sequences kept <= 400). Preemption happens only at yield points, so a lost update inside a plain ++ cannot be executed here; it is detected by TSan's happens-before analysis in part A. Races inside a planner's private state are not in the statement and not judged (part B runs without TSan).",
    technique="deterministic simulation: seeded serialising scheduler over real threads (link-time interposed pthread/clock/sleep), TSan as race oracle with invisible hand-off, path/status oracles, shrinking + replay"),
+ "C08": dict(engine="rngsim", cat="exploration", ref="DESIGN.md 4/C08",
+   text="Seeded search with fault injection on the randomness seam: every shipped state space (R^n, SO(2), SO(3), SE(2), SE(3), time, discrete, torus, sphere, Moebius, Klein bottle, Dubins, Reeds-Shepp, Owen, Vana, Vana-Owen, wrapper, nested weighted compounds) under five bounds classes (ordinary, negative, zero-width, 1e100, 1e-9 wide) is driven through histories of uniform / near / Gaussian sampling (distance or sigma from 0 to 1e9), the six valid-state samplers (1-100 attempts; always-valid, never-valid and 35%-invalid closed-form predicates) and enforceBounds on displaced states; 35% of the ops run with an extreme-draw burst injected through hook H1 (raw draws j..j+m replaced by 0, 1-2^-53, 1/2, +-8 sigma). Every sampled state must satisfy the bounds; a valid-state sampler that reports success must have written an in-bounds, valid state (a false return is retry exhaustion and claims nothing); ASan/UBSan clean.",
+   note="Trusted: satisfiesBounds as the judge of 'inside', the harness predicates. On curved spaces (Dubins family) the validity predicate includes the bounds, as the library's documentation asks of users. Coordinates of 1e100 are not generated for curved spaces (outside their numeric domain). The enforceBounds clause is a pure function, checked as a rider on the simulated state stream.",
+   technique="deterministic simulation: seeded sampler histories with RNG-draw fault injection (hook H1), shrinking + replay"),
+ "C15": dict(engine="rngsim", cat="exploration", ref="DESIGN.md 4/C15",
+   text="Seeded search with fault injection on the randomness seam over the informed samplers (direct path-length, rejection, ordered wrapper over either) on R^2..R^8, SE(2), SE(3) with 1-3 starts, 1-3 goals, bounds that do or do not cut the spheroid, cost bounds from 1.0000001x to 100x the focal distance, optional lower bound, 1-1000 iterations, with extreme-draw bursts (hook H1) that force rejection streaks, boundary radii and both ends of the PHS-choice draw. On success: in bounds, heuristicSolnCost strictly below the bound (recomputed independently from the foci as well), not below the lower bound; prolate-hyperspheroid surface points sum to the transverse diameter (1e-9), interior points do not exceed it; getInformedMeasure equals the analytic volume (1e-9, single start/goal); statistical rider: radial chi-square and half-space test of 20000 direct samples mapped back to the unit ball (thresholds beyond p = 1e-14).",
+   note="Trusted: the analytic formulas in the harness. A false return (retry exhaustion) is legal and claims nothing. Uniformity is a statistical rider and can miss small biases; overlap density with several PHSs is not judged.",
+   technique="deterministic simulation: seeded sampler histories with RNG-draw fault injection (hook H1), analytic oracles, shrinking + replay"),
  "C09": dict(engine="iosim", cat="fault_enumeration", ref="DESIGN.md 4/C09",
    text="Fault enumeration on the stream seam: generated state sets and planner-data graphs (geometric, and with controls and durations) over generated nested state spaces (R^n, SO(2), SO(3), SE(2), SE(3), time, discrete, weighted compounds up to depth 3) are stored through a simulated ostream and loaded through a simulated istream. Fault-free: the loaded set / graph must equal the original element by element (equalStates and bitwise serialisation, tags, start/goal marks, edge weights, controls, durations). Faulted: truncation at EVERY byte offset of every generated archive (enumerated), short reads of 1/2/7 bytes per refill (must be invisible), disk full on the write side at sampled offsets, overwritten archive marker, loading into a space with a different signature: the load must be reported (false / WARN-ERROR message) and what the object then holds must be an exact prefix of the original; no exception may escape; ASan/UBSan clean.",
    note="Trusted: the harness streambufs and comparison code. 'Reported' for StateStorage (void load) means a WARN/ERROR log message. Leaks on the rejected path are outside the statement (LSan off). In-memory copy/clone/serialize/reals/partial-copy round trips are a rider on the simulated state stream (pure functions). A streambuf that throws is not among the corruptions the statement lists and is not injected.",
@@ -81,6 +89,8 @@ def main():
              kind_free_text="termination-condition histories under the seeded scheduler and simulated clock vs a reference model"),
         dict(name="concsim", path="engines/concsim.cpp", serves_properties=["C19"],
              kind_free_text="thread-safe surface under a seeded serial order in a TSan build (hand-off invisible to TSan)"),
+        dict(name="rngsim", path="engines/rngsim.cpp", serves_properties=["C08", "C15"],
+             kind_free_text="sampler histories under a simulator-owned random stream: seed + extreme-draw bursts through hook H1"),
         dict(name="iosim", path="engines/iosim.cpp", serves_properties=["C09"],
              kind_free_text="store/load of state sets and planner data through simulated streams with enumerated truncation and sampled write/substitution faults"),
         dict(name="dssim", path="engines/dssim.cpp", serves_properties=["C10", "C11", "C12", "C13"],
